@@ -568,6 +568,21 @@ def run_prog_sync(i, bi, event, prog):
     raise RuntimeError('sync program suspended')
 
 
+def make_method_handler(inner, sync, k):
+    if sync:
+        class Holder:
+            def run(self, event):
+                return inner(event)
+    else:
+        class Holder:
+            async def run(self, event):
+                return await inner(event)
+    Holder.run.__name__ = f'h{k}'
+    holder = Holder()
+    RT.keepalive.append(holder)
+    return holder.run
+
+
 def make_handler(bi, k, h):
     prog = h['prog']
 
@@ -681,7 +696,13 @@ async def ext_task(x, prog, slots):
                 # recorded here: atomic with the registration of the temporary handler inside expect()
                 RT.rec('expectBegin', x=x, b=bi, key=key, h=k, pred=pred, timeout=to, bus=bussnap(b))
                 try:
-                    got = await b.expect(RT.types[key] if (k % 2 == 1 and key != '*') else key, include=include, timeout=to)
+                    # the filter is handed over as include, as the deprecated predicate, as a (negated) exclude, or split
+                    # between them; the type as a name or as the class
+                    mode = k % 4
+                    kw = ({'include': include} if mode == 0 else {'predicate': include} if mode == 1 else
+                          {'exclude': (lambda ev: not include(ev))} if mode == 2 else
+                          {'include': (lambda ev: True), 'predicate': include, 'exclude': (lambda ev: False)})
+                    got = await b.expect(RT.types[key] if (k % 2 == 1 and key != '*') else key, timeout=to, **kw)
                     # recorded here: atomic with the removal of the temporary handler in expect()'s finally
                     RT.expect_cur.pop(x, None)
                     RT.rec('expectEnd', x=x, b=bi, got=eid(got), bus=bussnap(b))
@@ -819,6 +840,9 @@ async def run_sc(sc):
             fn = RT.buses[h['target']].dispatch
         else:
             fn = make_handler(h['bus'], k, h)
+            if h.get('method'):
+                # registered as a bound method of an object (a new bound-method object on every attribute access)
+                fn = make_method_handler(fn, h['kind'] == 'sync', k)
         keys = h.get('keys') or [h['key']]
         for key in keys:
             # the three pattern kinds: '*' , the type name, or (byclass) the event class itself
